@@ -75,6 +75,7 @@ use std::cmp::Ordering;
 use std::convert::Infallible;
 use std::ffi::OsStr;
 use std::fmt::{self, Debug, Display, Formatter};
+use std::iter;
 use std::path::{Path, PathBuf};
 use std::str::{self, FromStr};
 use thiserror::Error;
@@ -103,7 +104,11 @@ trait CharExt: Sized {
 
 impl CharExt for char {
     fn has_casing(self) -> bool {
+        // Titlecase characters (such as `ǅ`) are neither lowercase nor uppercase, but are mapped to other
+        // characters by case folding.
         self.is_lowercase() != self.is_uppercase()
+            || !self.to_lowercase().eq(iter::once(self))
+            || !self.to_uppercase().eq(iter::once(self))
     }
 }
 
